@@ -23,10 +23,28 @@ RULE = ("histories are generated from one PRNG (VERIF_SEED) plus an exhaustive e
         "(operation line, resulting model observation) was not seen before and the operation was not a no-op")
 
 
+def safe(fn, world, *args):
+    """Call a harness step; an exception escaping from the cache code is a finding, not a tool failure."""
+    try:
+        return fn(world, *args)
+    except Exception as e:       # noqa
+        import traceback
+        tb = traceback.format_exc()
+        if "ocean_science_utilities" in tb:
+            world.run.violation("operation raised an unexpected exception inside the cache code",
+                                dict(step=str(args)[:300], error=repr(e), where=tb.splitlines()[-4:]))
+            return "aborted: " + repr(e), "model not consulted", dict(line="aborted " + str(args)[:200])
+        raise
+
+
 def compare(run, world, impl, model, info, hist, kernel):
     run.case(kernel, key=(info.get("line"), model), nontrivial=("out=none" not in model or "files= " not in model))
+    if not impl.startswith("aborted"):
+        world.invariant_oracles(dict(history=list(hist)[-6:]))
     if impl != model:
         run.mismatch(kernel, dict(history=list(hist), op=info, impl=impl, model=model))
+        if not impl.startswith("aborted"):
+            world.probe_hits(dict(history=list(hist)[-6:], impl=impl, model=model))
         return False
     return True
 
@@ -58,9 +76,9 @@ def exhaustive(run, drv, depth, sizes, modes, alphabet_keys=(0, 1, 4), budget_s=
                 try:
                     for op in seq:
                         if op[0] == "get":
-                            impl, model, info = do_get(world, op[1])
+                            impl, model, info = safe(do_get, world, op[1])
                         else:
-                            impl, model, info = simple_op(world, op)
+                            impl, model, info = safe(simple_op, world, op)
                         hist.append(info["line"])
                         if not compare(run, world, impl, model, info, hist, "cache/exhaustive"):
                             break
@@ -87,7 +105,11 @@ def random_history(run, drv, length, fault_rate, crash_rate, parallel, big_reque
             if u < 0.62:
                 nmax = 8 if big_requests else 3
                 n = rng.randint(1, nmax)
+                if big_requests and rng.random() < 0.7:
+                    n = rng.randint(6, 11)
                 keys = rng.sample(range(NKEYS), n)
+                # skew the completion order of the worker threads
+                world.delay = {keys[0]: 0.02} if (big_requests and rng.random() < 0.6) else {}
                 reqs = []
                 for k in keys:
                     kind, arg, pp, vname = "ok", rng.choice([8, 20, 30, 40, 55, 90, 180]), rng.random() < 0.3, None
@@ -108,28 +130,28 @@ def random_history(run, drv, length, fault_rate, crash_rate, parallel, big_reque
                 if rng.random() < crash_rate and all(r["kind"] in ("ok",) for r in reqs) and not parallel:
                     nwrites = sum(3 if r["pp"] else 2 for r in reqs)
                     j = rng.randint(0, nwrites)
-                    impl, model, info = crash_get(world, reqs, j, rng.random() < 0.7)
+                    impl, model, info = safe(crash_get, world, reqs, j, rng.random() < 0.7)
                     run.count("crash_requests")
                     kern = "cache/crash"
                 else:
-                    impl, model, info = do_get(world, reqs)
+                    impl, model, info = safe(do_get, world, reqs)
                     kern = "cache/get"
                     run.count("out_" + info["out"].split("[")[0])
             elif u < 0.70:
-                impl, model, info = simple_op(world, ("remove", rng.randrange(NKEYS)))
+                impl, model, info = safe(simple_op, world, ("remove", rng.randrange(NKEYS)))
                 kern = "cache/remove"
             elif u < 0.73:
-                impl, model, info = simple_op(world, ("purge",))
+                impl, model, info = safe(simple_op, world, ("purge",))
                 kern = "cache/purge"
             elif u < 0.81:
                 ev = rng.random() < 0.5
-                impl, model, info = simple_op(world, ("reopen", ev, rng.choice([1, 50, 5000])))
+                impl, model, info = safe(simple_op, world, ("reopen", ev, rng.choice([1, 50, 5000])))
                 kern = "cache/reopen"
             elif u < 0.92:
-                impl, model, info = simple_op(world, ("touch", rng.randrange(NKEYS)))
+                impl, model, info = safe(simple_op, world, ("touch", rng.randrange(NKEYS)))
                 kern = "cache/touch"
             else:
-                impl, model, info = simple_op(world, ("foreign", rng.randrange(3), rng.choice([5, 50, 500])))
+                impl, model, info = safe(simple_op, world, ("foreign", rng.randrange(3), rng.choice([5, 50, 500])))
                 kern = "cache/foreign"
             hist.append(info["line"])
             if not compare(run, world, impl, model, info, hist, kern):
@@ -176,9 +198,9 @@ def fault_enumeration(run, drv, nreq_max, parallel_modes, tolerant_modes):
                                         steps.append(("get", [mk_req(keys[pos], pp=pp, arg=40)]))
                                     for op in steps:
                                         if op[0] == "get":
-                                            impl, model, info = do_get(world, op[1])
+                                            impl, model, info = safe(do_get, world, op[1])
                                         else:
-                                            impl, model, info = simple_op(world, op)
+                                            impl, model, info = safe(simple_op, world, op)
                                         hist.append(info["line"])
                                         if not compare(run, world, impl, model, info, hist, "cache/fault-enum"):
                                             break
@@ -198,7 +220,7 @@ def fault_enumeration(run, drv, nreq_max, parallel_modes, tolerant_modes):
                                         mk_req(4, vname="vt", arg=30)]),
                                ("reopen", False, 1),
                                ("get", [mk_req(0, arg=30)])]:
-                        impl, model, info = do_get(world, op[1]) if op[0] == "get" else simple_op(world, op)
+                        impl, model, info = safe(do_get, world, op[1]) if op[0] == "get" else safe(simple_op, world, op)
                         hist.append(info["line"])
                         if not compare(run, world, impl, model, info, hist, "cache/validate-fault"):
                             break
@@ -221,16 +243,16 @@ def crash_enumeration(run, drv, max_reqs):
                         world = World(run, 70 if small else 500, True, False, drv)
                         hist = [f"init size={70 if small else 500}"]
                         try:
-                            impl, model, info = do_get(world, [mk_req(8, arg=30)])
+                            impl, model, info = safe(do_get, world, [mk_req(8, arg=30)])
                             hist.append(info["line"])
                             if not compare(run, world, impl, model, info, hist, "cache/crash-enum"):
                                 continue
                             reqs = [mk_req(8, arg=30)] + [mk_req(k, pp=p, arg=35) for k, p in zip([0, 5, 2], pps)]
-                            impl, model, info = crash_get(world, reqs, j, ev)
+                            impl, model, info = safe(crash_get, world, reqs, j, ev)
                             hist.append(info["line"])
                             if not compare(run, world, impl, model, info, hist, "cache/crash-enum"):
                                 continue
-                            impl, model, info = do_get(world, reqs)
+                            impl, model, info = safe(do_get, world, reqs)
                             hist.append(info["line"])
                             compare(run, world, impl, model, info, hist, "cache/crash-enum")
                             n += 1
